@@ -149,6 +149,15 @@ func runC15(c *Ctx) {
 		}
 	}
 
+	// ---- M5: totality over every admitted (property, operator) pair -----------------------
+	{
+		fs := append([]assets.Field{}, fields...)
+		fs = append(fs, static.NewField("l", "loc", "Loc", assets.FieldTypeState))
+		full := contactql.NewMockResolver(fs, []assets.Flow{static.NewFlow("fl1", "Registration", []byte(`{}`))},
+			[]assets.Group{static.NewGroup("g2", "Testers", "")})
+		c15Totality(c, full)
+	}
+
 	// ---- M2/K: numbers --------------------------------------------------------------------------
 	nums := []string{"0", "1", "-1", "10", "10.0", "10.5", "9.999", "10.001", "-10.5", "1000000", "0.001", "-0.001", "123.45", "7"}
 	ops := []struct{ sym, name string }{{"=", "eq"}, {"!=", "neq"}, {">", "gt"}, {">=", "gte"}, {"<", "lt"}, {"<=", "lte"}}
@@ -339,6 +348,66 @@ func runC15(c *Ctx) {
 			e = "1"
 		}
 		c.Model("qcombine", "qcombine "+op.name+" "+e+" "+bits, fmt.Sprint(got), fmt.Sprint(vals, op.sym, qv))
+	}
+}
+
+// M5: totality - every (property, operator, value) the validator admits evaluates without panicking,
+// against queryables that do and do not hold values of the property's type
+func c15Totality(c *Ctx, resolver contactql.Resolver) {
+	r := c.Rng
+	env := envs.NewBuilder().Build()
+	now := time.Date(2024, 3, 5, 12, 30, 0, 0, time.UTC)
+	typed := map[string][]any{}
+	textProps := []string{"uuid", "id", "name", "status", "language", "urn", "group", "flow", "history", "tel", "twitter", "whatsapp", "urns.tel", "urns.mailto", "nick", "fields.nick", "f1", "loc"}
+	numProps := []string{"tickets", "age", "fields.age"}
+	dateProps := []string{"created_on", "last_seen_on", "dob", "fields.dob"}
+	key := func(p string) string {
+		if i := strings.Index(p, "."); i >= 0 {
+			return p[i+1:]
+		}
+		return p
+	}
+	for _, p := range textProps {
+		typed[key(p)] = []any{"Bob x", "+12065551212"}
+	}
+	for _, p := range numProps {
+		typed[key(p)] = []any{decimal.RequireFromString("10.5")}
+	}
+	for _, p := range dateProps {
+		typed[key(p)] = []any{now}
+	}
+	full := &stubQueryable{vals: typed}
+	empty := &stubQueryable{vals: map[string][]any{}}
+	opsAll := []string{"=", "!=", "~", ">", ">=", "<", "<=", "has", "is"}
+	values := []string{`""`, `"bob"`, `bo`, `10`, `10.5`, `"2024-03-05"`, `2024-03-05T10:00:00Z`, `active`, `eng`, `Testers`, `Registration`, `"+1206"`, `x`, `"a b c"`, `-1`}
+	var props []string
+	props = append(props, textProps...)
+	props = append(props, numProps...)
+	props = append(props, dateProps...)
+	for _, p := range props {
+		for _, op := range opsAll {
+			for _, v := range values {
+				text := p + " " + op + " " + v
+				if r.Chance(30) {
+					text = "(" + text + " AND name = x) OR " + text
+				}
+				var q *contactql.ContactQuery
+				var err error
+				if c.Guard("M5-total", "panic:ParseQuery", map[string]any{"text": text}, func() { q, err = contactql.ParseQuery(env, text, resolver) }) {
+					continue
+				}
+				if err != nil {
+					c.Eval("")
+					c.Count("M5-rejected-by-validator")
+					continue
+				}
+				for qi, qb := range []contactql.Queryable{full, empty} {
+					panicked := c.Guard("M5-total", "panic:EvaluateQuery", map[string]any{"text": text, "contact_has_values": qi == 0}, func() { contactql.EvaluateQuery(env, q, qb) })
+					c.Eval(fmt.Sprintf("M5|%s|%s|%d|%v", key(p), op, qi, panicked))
+					c.Count("check:M5-total")
+				}
+			}
+		}
 	}
 }
 
